@@ -735,11 +735,11 @@ func (rd *renderer) val(v any, path []any, track bool) any {
 		return out
 	case map[string]any:
 		out := make(map[string]any, len(t))
-		for k, e := range t {
+		for _, k := range sortedKeys(t) { // sorted: the order of tracked leaves must not depend on map iteration
 			if k == templatingKey {
 				continue
 			}
-			out[k] = rd.val(e, appendPath(path, k), track)
+			out[k] = rd.val(t[k], appendPath(path, k), track)
 		}
 		return out
 	}
